@@ -13,6 +13,26 @@ type kvModel struct {
 	cVal     [2]byte
 	pState   [2]int // 0 none, 1 put, 2 delete
 	pVal     [2]byte
+	// values are one byte long or empty (an empty value is still a present key)
+	cEmpty [2]bool
+	pEmpty [2]bool
+}
+
+func (m *kvModel) visibleEmpty(i int) bool {
+	if m.pState[i] == 1 {
+		return m.pEmpty[i]
+	}
+	return m.cEmpty[i]
+}
+
+func kvMatches(got []byte, want byte, empty bool) bool {
+	if got == nil {
+		return false
+	}
+	if empty {
+		return len(got) == 0
+	}
+	return len(got) == 1 && got[0] == want
 }
 
 func (m *kvModel) visible(i int) (byte, bool) {
@@ -29,7 +49,7 @@ func (m *kvModel) flush() {
 	for i := range m.pState {
 		switch m.pState[i] {
 		case 1:
-			m.cPresent[i], m.cVal[i] = true, m.pVal[i]
+			m.cPresent[i], m.cVal[i], m.cEmpty[i] = true, m.pVal[i], m.pEmpty[i]
 		case 2:
 			m.cPresent[i] = false
 		}
@@ -51,7 +71,7 @@ func verifKVCheck(tag string, b DBBucket, keys [2][]byte, m *kvModel) {
 		want, present := m.visible(i)
 		if present {
 			nVisible++
-			vapi.Assert(tag+".get", len(got) == 1 && got[0] == want)
+			vapi.Assert(tag+".get", kvMatches(got, want, m.visibleEmpty(i)))
 		} else {
 			vapi.Assert(tag+".get", got == nil)
 		}
@@ -64,7 +84,7 @@ func verifKVCheck(tag string, b DBBucket, keys [2][]byte, m *kvModel) {
 			if bytes.Equal(k, keys[i]) {
 				seen[i]++
 				want, present := m.visible(i)
-				vapi.Assert(tag+".iter", present && len(v) == 1 && v[0] == want)
+				vapi.Assert(tag+".iter", present && kvMatches(v, want, m.visibleEmpty(i)))
 			}
 		}
 	}
@@ -101,8 +121,13 @@ func verifKVRun(tag string, db DB, under DB, nOps int) {
 		switch vapi.Int("op", 0, 3) {
 		case 0: // put
 			v := vapi.U8("val")
-			vapi.Assert(tag+".put", b.Put(keys[ki], []byte{v}) == nil)
-			m.pState[ki], m.pVal[ki] = 1, v
+			empty := vapi.Bool("empty-value")
+			val := []byte{v}
+			if empty {
+				val = []byte{}
+			}
+			vapi.Assert(tag+".put", b.Put(keys[ki], val) == nil)
+			m.pState[ki], m.pVal[ki], m.pEmpty[ki] = 1, v, empty
 		case 1: // delete
 			vapi.Assert(tag+".delete", b.Delete(keys[ki]) == nil)
 			m.pState[ki] = 2
@@ -117,7 +142,7 @@ func verifKVRun(tag string, db DB, under DB, nOps int) {
 				for i := range keys {
 					got := ub.Get(keys[i])
 					if m.cPresent[i] {
-						vapi.Assert(tag+".durable", len(got) == 1 && got[0] == m.cVal[i])
+						vapi.Assert(tag+".durable", kvMatches(got, m.cVal[i], m.cEmpty[i]))
 					} else {
 						vapi.Assert(tag+".durable", got == nil)
 					}
@@ -143,7 +168,7 @@ func verifKVRun(tag string, db DB, under DB, nOps int) {
 // VerifH_C17_mem: MemDB against the reference model, every sequence of 4
 // operations over two arbitrary distinct keys and arbitrary values.
 //
-//verif:harness prop=C17 tier=quick require=done bounds="1 bucket, 2 distinct arbitrary 1-byte keys, arbitrary 1-byte values, every sequence of 4 ops from {put,delete,flush,cancel}, Get+Iter compared after every op"
+//verif:harness prop=C17 tier=quick require=done bounds="1 bucket, 2 distinct arbitrary 1-byte keys, arbitrary values of 0 or 1 byte, every sequence of 4 ops from {put,delete,flush,cancel}, Get+Iter compared after every op"
 func VerifH_C17_mem() {
 	verifKVRun("mem", NewMemDB(), nil, 4)
 }
@@ -157,13 +182,13 @@ func VerifH_C17_cache() {
 	verifKVRun("cache", NewCacheDB(under), under, 4)
 }
 
-//verif:harness prop=C17 tier=thorough require=done bounds="as VerifH_C17_mem with sequences of 6 ops"
+//verif:harness prop=C17 tier=thorough require=done bounds="as VerifH_C17_mem with sequences of 5 ops (6 ops with 1-byte values only ran 19 min clean before empty values were added)"
 func VerifH_C17_mem5() {
-	verifKVRun("mem", NewMemDB(), nil, 6)
+	verifKVRun("mem", NewMemDB(), nil, 5)
 }
 
-//verif:harness prop=C17 tier=thorough require=done bounds="as VerifH_C17_cache with sequences of 6 ops"
+//verif:harness prop=C17 tier=thorough require=done bounds="as VerifH_C17_cache with sequences of 5 ops (6 ops with 1-byte values only ran 19 min clean before empty values were added)"
 func VerifH_C17_cache5() {
 	under := NewMemDB()
-	verifKVRun("cache", NewCacheDB(under), under, 6)
+	verifKVRun("cache", NewCacheDB(under), under, 5)
 }
